@@ -1,5 +1,5 @@
 """C04 — face normals point away from the left generator; unit length; centroid on the face plane; sign conventions."""
-from . import faces, grid, geomhelpers
+from . import faces, grid, geomhelpers, surfaces
 from .. import smt, runner, extract
 
 A_REAL = "A-REAL: f64 arithmetic is interpreted over the reals"
@@ -47,11 +47,20 @@ def run(tier, seed):
     results = [runner.from_smt(o) for o in obs]
     n, bad = geomhelpers.validate_translation(seed, 10 if tier == "quick" else 200)
     if bad: raise extract.Undecided("translation mismatch: %r" % bad[:2])
+    # the closed-surface identities are NOT decided by any contract in reach: bounded stand-ins on the real crate, labelled
+    U = "Voronoi::build (public API, real crate): per-cell closure and divergence identities"
+    nc, cb = surfaces.closure_probe(seed, 60 if tier == "quick" else 600, False)
+    results.append(surfaces.result("C04.bounded.real_cells_are_closed_surfaces_generators_strictly_inside_the_box", U,
+                                   "%d cells of random 1D/2D/3D tessellations (1..6 generators strictly inside boxes of several sizes and offsets)", nc, cb))
+    nw, wb = surfaces.closure_probe(seed, 40 if tier == "quick" else 400, True)
+    results.append(surfaces.result("C04.bounded.real_cells_are_closed_surfaces_generators_exactly_on_walls", U,
+                                   "%d cells of random tessellations with generators exactly on walls, edges and corners of the box", nw, wb))
     meta = {
         "level": "proof",
         "functions": fns,
         "assumptions": [A_REAL, "glam 0.27 vector algebra as in vlib/symex.py's operation table",
-                        "the closure identities (sum of area*normal = 0, divergence theorem) need the whole cell to be a closed polytope (C01) and are not claimed",
+                        "the closure identities (sum of area*normal = 0, divergence theorem) need the whole cell to be a closed polytope (C01): NOT proved, covered by two BOUNDED stand-ins "
+                        "on the real crate (generators strictly inside / exactly on walls); the second one hits an OPEN known finding (see known_findings.txt)",
                         "'every clipping plane of a cell has a unit normal pointing into the cell' is used as the data-structure invariant for face_init; it is "
                         "established by the cuboid and bisector obligations of this same check (the only two producers of HalfSpaces in the builder)"],
         "trusted_base": ["vx (syn 2 dump)", "vlib/symex.py", "vlib/ring.py", "z3 4.8.12 / z3 5.1 / cvc5 1.0"],
